@@ -105,26 +105,93 @@ class Engine:
             return "m/%s/%s/%d/%d/~/e" % (hx("rcmd"), hx("rsh"), self.default_prio, DSH | PCP)
         return "x"
 
+    def given(self, dirpath, f):
+        """the path of a directory entry as pdsh spells it (PDSH_MODULE_DIR may name the symbolic link)"""
+        c = getattr(self, "cur", None)
+        if c is not None and c.get("dirlink") and dirpath == self.pool.dir:
+            return os.path.join(self.pool.linkdir, f)
+        return os.path.join(dirpath, f)
+
+    def override(self, statmap, path):
+        """harness/preload_shim.c stat(): the path as given, else its realpath"""
+        return statmap.get(path, statmap.get(os.path.realpath(path)))
+
     def dir_str(self, dirpath, files, objf, statmap):
         anc = self.pool.ancestors(dirpath)
         path = ",".join(file_stat(real_stat(a), statmap.get(a)) for a in anc)
         ents = []
+        seen_objects = set()
         for f in files:
-            p = os.path.join(dirpath, f)
-            ents.append("%s,%s,%s" % (hx(f), file_stat(real_stat(p), statmap.get(p)), objf(f)))
+            p = self.given(dirpath, f)
+            # stat follows symbolic links: an override given for the link's target applies to the link as well
+            ov = self.override(statmap, p)
+            st = file_stat(real_stat(p), ov)
+            obj = objf(f)
+            if "sameobj" in getattr(self, "repaired", ()) and obj.startswith("m/") and self.passes_file_tests(st):
+                # one object under two names (symbolic / hard link): dlopen yields the handle of the entry that is
+                # registered already, the later name is opened and skipped (findings/C17-sameobj.patch) -- for the
+                # model: an object that registers nothing
+                try:
+                    ident = os.stat(p)[1:3]
+                except OSError:
+                    ident = None
+                if ident in seen_objects:
+                    obj = "n"
+                elif ident is not None:
+                    seen_objects.add(ident)
+            ents.append("%s,%s,%s" % (hx(f), st, obj))
         return path + "@" + ";".join(ents)
+
+    def passes_file_tests(self, st):
+        if st == "!":
+            return False
+        uid, mode = [int(x) for x in st.split(":")]
+        c = self.cur
+        ost = file_stat(real_stat(self.pdcp if c["pers"] == PCP else self.exe), c["statmap"].get(self.exe))
+        owner = None if ost == "!" else int(ost.split(":")[0])
+        return (mode & 0o170000) == 0o100000 and not (mode & 0o002) and uid in (0, c["uid"], owner)
+
+    def twins(self, c):
+        """names of this case's directory that are the same object as another entry, both passing the file tests"""
+        if not self.uses_env(c):
+            return []
+        self.cur = c
+        by = {}
+        for f in c["files"]:
+            p = self.given(self.pool.dir, f)
+            d = self.pool.by_file.get(f)
+            if d is None or d.kind not in ("mod", "link"):
+                continue
+            ov = self.override(c["statmap"], p)
+            if not self.passes_file_tests(file_stat(real_stat(p), ov)):
+                continue
+            try:
+                by.setdefault(os.stat(p)[1:3], []).append(f)
+            except OSError:
+                pass
+        return sorted({f for g in by.values() if len(set(g)) > 1 for f in g})
 
     def pool_obj(self, f):
         d = self.pool.by_file.get(f)
         if d is None or d.kind in ("dir", "ghost"):
             return "x"
+        if d.kind == "link":
+            # a second name for another pool file: dlopen yields that file's descriptor
+            return obj_str(self.pool.by_id[d.link_to], self.default_prio)
         return obj_str(d, self.default_prio)
 
     def case_line(self, c, order=None, use=()):
         sm = c["statmap"]
+        self.cur = c
         uses_env = self.uses_env(c)
         envfiles = order if (order is not None and uses_env) else c["files"]
         bfiles = order if (order is not None and not uses_env) else c["bfiles"]
+        if c.get("opendir_fail"):
+            # a directory that cannot be enumerated is, for the loader, a directory without entries
+            if uses_env:
+                envfiles = []
+            else:
+                bfiles = []
         exe = self.pdcp if c["pers"] == PCP else self.exe
         # the owner is taken from stat() of the program path: the symlink is followed
         ost = file_stat(real_stat(exe), sm.get(self.exe))
@@ -154,26 +221,43 @@ class Engine:
             args += ["-M", c["misc_opt"]]
         args += list(extra) + [final]
         exe = self.pdcp if c["pers"] == PCP else self.exe
-        return preload.run_pdsh(self.pool, exe, args, uid=c["uid"], euid=c["euid"],
-                                moddir_env=self.pool.dir if c["envdir"] else None,
-                                fake_dir=self.pool.dir if env_dir else self.builtin, dirlist=files,
-                                statmap=c["statmap"], extra_env=extra_env, argv0=exe)
+        if c.get("opendir_fail"):
+            extra_env["VERIF_OPENDIR_FAIL"] = "1"
+        envdir = (self.pool.linkdir if c.get("dirlink") else self.pool.dir) if c["envdir"] else None
+        r = None
+        for attempt in (1, 2):
+            r = preload.run_pdsh(self.pool, exe, args, uid=c["uid"], euid=c["euid"], moddir_env=envdir,
+                                 fake_dir=self.pool.dir if env_dir else self.builtin, dirlist=files,
+                                 statmap=c["statmap"], extra_env=extra_env, argv0=exe)
+            if r["rc"] != -999:
+                break               # a time-out alone is tried once more before it counts
+        r["files"] = list(files)
+        return r
 
     def observe(self, r):
         """canonical observation of a `-L` run: (fatal, listed [(file, active)], calls [file], opened [file])"""
         listed = []
+        opened = [os.path.basename(l.split(" ", 1)[1]) for l in r["log"] if l.startswith("dlopen ")]
+
+        def file_of(d):
+            """the module prints its pool id: the file is the pool file of that id, or -- when that file is not in
+            this directory -- the link in this directory that points to it"""
+            names = [d.file] + [x.file for x in self.pool.descs if x.kind == "link" and x.link_to == d.id]
+            for o in opened:                      # the first of its names that was handed to dlopen
+                if o in names:
+                    return o
+            return d.file
         for tn, act, descr in preload.parse_L(r["out"]):
             d = self.pool.by_id.get(descr)
             if d is not None:
-                listed.append((d.file, bool(act)))
+                listed.append((file_of(d), bool(act)))
             elif tn == "rcmd/exec":
                 listed.append(("execcmd.so", bool(act)))
             elif tn == "rcmd/rsh":
                 listed.append(("xrcmd.so", bool(act)))
             else:
                 listed.append(("?" + tn, bool(act)))
-        calls = [self.pool.by_id[l.split()[1]].file for l in r["log"] if l.startswith("init ")]
-        opened = [os.path.basename(l.split(" ", 1)[1]) for l in r["log"] if l.startswith("dlopen ")]
+        calls = [file_of(self.pool.by_id[l.split()[1]]) for l in r["log"] if l.startswith("init ")]
         return {"rc": r["rc"], "fatal": r["rc"] != 0, "listed": listed, "calls": calls, "opened": opened}
 
 
@@ -208,7 +292,8 @@ def obs_tokens(o, uses):
 GROUPS = [["m01", "m02", "m22"], ["m03", "m04", "m05"], ["m13", "m14"], ["m01", "m18", "m19"], ["m02", "m20", "m31"],
           ["m24", "m25"], ["m26", "r05"], ["m08", "m09", "m10"], ["m11", "m12", "m30"], ["m06", "m28", "m29"],
           ["m07", "m15", "m16", "m17"], ["m21", "m23", "m27"], ["r01", "r09", "m01"], ["r10", "m01"],
-          ["x01", "x02", "x03", "x04", "x05", "x06"], ["o01", "r03", "r11"]]
+          ["x01", "x02", "x03", "x04", "x05", "x06"], ["o01", "r03", "r11"], ["m07", "m32"], ["m33", "m27", "m08", "m09"],
+          ["m06", "s01", "m28"], ["m34", "m01"], ["m35", "m36", "m01"]]
 
 
 def gen_case(rng, eng, shape=None):
@@ -238,6 +323,13 @@ def gen_case(rng, eng, shape=None):
         c["uid"] = c["euid"] = rng.choice([1, 65534])
     if rng.random() < 0.05:
         c["envdir"] = False
+    r = rng.random()
+    if r < 0.08:
+        c["dirlink"] = True
+    elif r < 0.10:
+        c["opendir_fail"] = True
+    elif r < 0.12:
+        c["files"] = [x for x in c["files"] if x in (".", "..")]
     sm = c["statmap"]
     owner_faked = False
     if rng.random() < 0.2:
@@ -324,6 +416,135 @@ def planned_cases(eng):
     # m03=gamma / m04=delta share -g (delta sorts first by name, gamma by file); m13=nu / m14=xi; m02=beta / m22=tau
     out.append(mk(["m03.so", "m04.so"]))
     out.append(mk(["m04.so", "m03.so", "m21.so", "m16.so"]))
+    out += pinned_classes(eng, mk)
+    return out
+
+
+def pinned_classes(eng, mk):
+    """Run in EVERY run whatever the seed, each class of the property text systematically:
+      ties        every (priority, name, type) tie pattern of the pool, under EVERY enumeration order (<= 4 files)
+      conflicts   option tables where a later-loaded module holds a letter registered earlier, in first and in
+                  non-first position of its table; built-in letters; personality-specific rows; a failing initialiser
+      -M          a missing, repeated, conflicting, non-misc name; empty pieces; option and environment
+      permissions every owner (root / caller / owner of the binary / somebody else) x mode (plain, group-writable,
+                  world-writable, world-writable+sticky, group-writable+sticky) on a module file and on EACH
+                  ancestor directory up to "/", with the binary owned by root and by a third user
+      links       module files that are symbolic links (inside and outside the directory), PDSH_MODULE_DIR naming a
+                  symbolic link that lives in a world-writable directory
+      enumeration a directory that cannot be opened, an empty one, one with only "." and ".."
+    Every case of a tie/conflict group is also compared with the group's FIRST order (determinism)."""
+    out = []
+    pool = eng.pool
+
+    def orders(ids, **kw):
+        files = [pool.by_id[i].file for i in ids]
+        first = None
+        for perm in itertools.permutations(files):
+            c = mk(list(perm), **kw)
+            c["_all_letters"] = first is None
+            c["_no_letters"] = first is not None
+            if first is None:
+                first = list(perm)
+            else:
+                c["_order2"] = list(first)
+            c["pinned"] = "orders"
+            out.append(c)
+    # ties and duplicates
+    orders(["m26", "r05", "m23"])                    # misc/tie + rcmd/tie, same priority, same letter
+    orders(["m01", "m19", "r10", "m02"])             # equal-priority duplicate; rcmd/alpha beside misc/alpha
+    orders(["m02", "m20", "m31", "m22"])             # three betas 100 / 50 / 170
+    orders(["m01", "m18", "m19", "m22"])             # duplicate with higher and with equal priority
+    orders(["m24", "m25", "m06"])                    # higher-priority duplicate of the other personality
+    orders(["m24", "m25", "m06"], pers=PCP)
+    orders(["m11", "m30", "m12"])                    # duplicate of an option-less module
+    orders(["r01", "r09", "m01"])                    # rcmd duplicate, the better one conflicts with alpha
+    orders(["m06", "s01", "m28"])                    # one object under two names
+    orders(["m34", "m01", "s01"])
+    # conflicts
+    orders(["m03", "m04", "m05"])                    # eps(200) j | delta j,g | gamma g,i : delta loses on its FIRST row
+    orders(["m07", "m32", "m16"])                    # eta n,q(built-in): loses on its SECOND row, zz must get n
+    orders(["m33", "m27", "m08", "m09"])             # aaa H,o | chi H,a(pcp) | theta r,o | iota S(pcp),o(dsh)
+    orders(["m33", "m27", "m08", "m10"], pers=PCP)
+    orders(["m13", "m14", "m21"])                    # nu: init fails AFTER its option was registered; xi wants it
+    orders(["m28", "m29", "m06"])                    # psi(300) m:,O | omega O, init fails | zeta(50) m
+    orders(["m15", "m17", "m23"])                    # a letter twice in one table
+    orders(["m35", "m36", "m01"])                    # priorities INT_MAX and INT_MIN beside an ordinary one
+    orders(["m36", "m06", "m16"])                    # INT_MIN below 50 and -1
+    # -M
+    for files, misc in ((["m01.so", "m02.so", "m22.so"], "nosuch"), (["m01.so", "m02.so", "m22.so"], "beta,beta"),
+                        (["m01.so", "m02.so", "m22.so"], "tau,beta,alpha"), (["m01.so", "m02.so", "m22.so"], "beta,nosuch,alpha"),
+                        (["m02.so", "m01.so"], ""), (["m02.so", "m01.so"], ",beta,,"), (["m02.so", "m01.so"], ","),
+                        (["m01.so", "r10.so", "m02.so"], "alpha"), (["r01.so", "m02.so", "m01.so"], "t1"),
+                        (["m13.so", "m14.so"], "xi"), (["m13.so", "m14.so"], "nu,xi"), (["m07.so", "m32.so"], "eta,zz"),
+                        (["m18.so", "m01.so", "m02.so"], "alpha"), (["m24.so", "m25.so", "m06.so"], "phi"),
+                        (["m11.so", "m30.so", "m06.so"], "lambda")):
+        for how in ("opt", "env", "both"):
+            c = mk(list(files))
+            if how == "opt":
+                c["misc_opt"] = misc
+            elif how == "env":
+                c["misc_env"] = misc
+            else:
+                c["misc_env"], c["misc_opt"] = "zeta,nosuch", misc
+            c["misc"] = c["misc_opt"] if c["misc_opt"] is not None else c["misc_env"]
+            c["_all_letters"] = how == "opt"
+            c["_no_letters"] = how != "opt"
+            c["pinned"] = "-M"
+            out.append(c)
+    # permissions
+    anc = pool.ancestors()
+    targets = [("file", os.path.join(pool.dir, "m01.so"), 0o100644), ("file-outside", os.path.join(pool.dir, "m34.so"), 0o100644)]
+    targets += [("ancestor%d" % i, a, 0o40755) for i, a in enumerate(anc)]
+    for tname, path, base in targets:
+        for uid in (0, 1000, PDSH_OWNER, OTHER_UID):
+            for bits in (0, 0o020, 0o002, 0o1002, 0o1020, 0o1000):
+                for owner_faked in ((True, False) if uid in (PDSH_OWNER, OTHER_UID) and bits in (0, 0o1002) else (True,)):
+                    sm = {path: "%d:%o" % (uid, base | bits)}
+                    if owner_faked:
+                        sm[eng.exe] = "%d:-" % PDSH_OWNER
+                    c = mk(["m01.so", "m06.so", "m34.so"], statmap=sm)
+                    c["_no_letters"] = True
+                    c["pinned"] = "perm"
+                    c["kinds"] = ["%s:uid=%s,bits=%o" % (tname.rstrip("0123456789"), {0: "root", 1000: "caller", PDSH_OWNER: "binary-owner",
+                                                                                        OTHER_UID: "other"}[uid], bits)]
+                    out.append(c)
+    # two insecure things at once, type bits
+    for sm in ({anc[1]: "-:40777", anc[3]: "%d:40755" % OTHER_UID}, {anc[0]: "-:100755"}, {anc[2]: "!"},
+               {os.path.join(pool.dir, "m01.so"): "-:40755"}, {os.path.join(pool.dir, "m01.so"): "!"},
+               {os.path.join(pool.dir, "m01.so"): "-:10644"}, {eng.exe: "!"},
+               {os.path.join(pool.dir, "m01.so"): "%d:100666" % OTHER_UID, os.path.join(pool.dir, "m06.so"): "-:100602"}):
+        c = mk(["m01.so", "m06.so", "m34.so"], statmap=dict(sm))
+        c["_no_letters"] = True
+        c["pinned"] = "perm"
+        out.append(c)
+    # callers
+    for uid, euid in ((0, 0), (1000, 0), (0, 1000), (1000, 1001), (65534, 65534), (1, 1)):
+        for envdir in (True, False):
+            c = mk(["m01.so", "m06.so"], uid=uid, euid=euid, envdir=envdir)
+            c["pinned"] = "caller"
+            out.append(c)
+    # links and enumeration
+    for files in (["m01.so", "m34.so", "s01.so"], ["s01.so"], ["m34.so"]):
+        for dirlink in (False, True):
+            c = mk(list(files), dirlink=dirlink)
+            c["_all_letters"] = True
+            c["pinned"] = "links"
+            out.append(c)
+    c = mk(["m01.so", "m06.so"], dirlink=True, statmap={anc[0]: "%d:40755" % OTHER_UID})
+    c["pinned"] = "links"
+    out.append(c)
+    # readdir() delivering an entry twice (it may, while the directory changes): the second one is "already loaded"
+    for files in (["m01.so", "m06.so", "m01.so"], ["m06.so", "m06.so"], ["m18.so", "m01.so", "m18.so", "m01.so"],
+                  ["m24.so", "m25.so", "m24.so", "m06.so"]):
+        c = mk(list(files))
+        c["_all_letters"] = True
+        c["pinned"] = "enumeration"
+        out.append(c)
+    for kw in (dict(files=["m01.so", "m06.so"], opendir_fail=True), dict(files=[]), dict(files=[".", ".."]),
+               dict(files=["x01.txt", "x05.d", "x06.so", "x02.so"]), dict(files=["m10.so", "m24.so"])):
+        c = mk(list(kw.pop("files")), **kw)
+        c["pinned"] = "enumeration"
+        out.append(c)
     return out
 
 
@@ -409,7 +630,11 @@ def run(ctx):
     ctx.lean_build([PROPS, "pdshmodel"])
     ctx.audit(PROPS)
     cov = {"evaluations": 0, "distinct_nontrivial": 0, "samples": [],
-           "rule": "a case = subset of a pool of ~50 generated module files (planned option overlaps incl. built-in "
+           "rule": "~700 pinned cases first (every enumeration order of 17 tie / duplicate / conflict groups of 3-4 modules, "
+                   "-M lists naming missing, repeated, conflicting and non-misc modules via option and environment, the "
+                   "permission matrix owner x mode on a module file and on EACH ancestor directory, callers, symbolic links "
+                   "to files and to the directory, unopenable / empty / repeated enumeration), then random: "
+                   "a case = subset of a pool of ~55 generated module files (planned option overlaps incl. built-in "
                    "letters, duplicate (type,name) with higher/equal/lower priority, other-personality duplicates, "
                    "failing/absent init, NULL/empty tables, broken objects) + enumeration order + stat overrides for "
                    "files and ancestors + uid/euid + owner of the binary + -M/PDSH_MISC_MODULES + pdsh/pdcp; each case "
@@ -445,7 +670,17 @@ def run(ctx):
             eng.margs.append("tiefix")
             eng.repaired.add("tie")
             ctx.log("ties are broken by type / file name (F17-TIE repaired): model runs as `tiefix`")
-        dist["variant"] = " ".join(eng.margs)
+        # F17-SAMEOBJ repaired (findings/C17-sameobj.patch)?  one object under two names no longer ends the run
+        so = eng.observe(eng.run(dict(planned_cases(eng)[0], files=["m06.so", "s01.so", "m01.so"])))
+        if so["rc"] == 0 and ("m06.so", True) in so["listed"] and ("m01.so", True) in so["listed"]:
+            eng.repaired.add("sameobj")
+            ctx.log("an object under a second name is skipped (F17-SAMEOBJ repaired)")
+        # F17-PRIO-OVERFLOW repaired (findings/C17-prio.patch)?  priority INT_MIN sorts behind priority 100
+        po = eng.observe(eng.run(dict(planned_cases(eng)[0], files=["m36.so", "m01.so"])))
+        if [f for f, _ in po["listed"]] == ["m01.so", "m36.so"]:
+            eng.repaired.add("prio")
+            ctx.log("_cmp_f compares priorities without subtracting them (F17-PRIO-OVERFLOW repaired)")
+        dist["variant"] = " ".join(eng.margs + sorted(x for x in eng.repaired if x in ("sameobj", "prio")))
         if getattr(ctx, "replay", None):
             cases = replay_cases(ctx, eng)
             cov["rule"] = "replay of %s: exactly the recorded case(s), both recorded enumeration orders, every " \
@@ -453,7 +688,7 @@ def run(ctx):
             check_cases(ctx, eng, cases, cov, dist, distinct, rng)
         else:
             cases = [(c, "planned") for c in planned_cases(eng)]
-            n = 2200 if ctx.quick() else 20000
+            n = 1800 if ctx.quick() else 20000
             cases += [(gen_case(rng, eng), "random") for _ in range(n)]
             if not ctx.quick():
                 cases += [(c, "matrix") for c in perm_matrix(eng)]
@@ -470,7 +705,10 @@ def run(ctx):
                      "the activation clause of the specification is not evaluated for directories with a failing "
                      "initialiser (the text is silent on what happens to its registered options); the model "
                      "correspondence still covers them",
-                     "-M lists of the oracle's domain contain no brackets (list_split is bracket aware; modelled)"],
+                     "-M lists of the oracle's domain contain no brackets (list_split is bracket aware; modelled)",
+                     "directory entries are distinct objects; one object under two names is finding F17-SAMEOBJ (with "
+                     "findings/C17-sameobj.patch the later name is fed to the model as an object that registers nothing)",
+                     "a directory that cannot be opened is run as a directory without entries"],
         trusted_base=["Lean 4.33 kernel", "axioms: propext, Classical.choice, Quot.sound at most (audited per theorem)",
                       "hand-written model Mod/Load.lean tied to mod.c/opt.c/list.c by differential execution",
                       "Gen/Modopt.lean regenerated from /repo (GEN_ARGS, DSH_ARGS, PCP_ARGS, S_I* bits, default priority)",
@@ -651,7 +889,7 @@ def check_cases(ctx, eng, cases, cov, dist, distinct, rng):
         dist["order_pairs"] += 1
         # option characters
         uses = {}
-        ls = letters_of(eng, c) if env_dir and not o1["fatal"] else []
+        ls = letters_of(eng, c) if env_dir and not o1["fatal"] and not c.get("_no_letters") else []
         for ch in (ls if c.get("_all_letters") else rng.sample(ls, min(3, len(ls)))):
             # `-c -L`: an option that takes an argument swallows "-L" (glibc getopt keeps the POSIX
             # ordering of the early pass, so nothing may stand between the option and -L)
@@ -661,7 +899,10 @@ def check_cases(ctx, eng, cases, cov, dist, distinct, rng):
             hl = [l.split() for l in ru["log"] if l.startswith("opt ")]
             if hl:
                 _, mid, code, arg = hl[0]
-                uses[ch] = "h%s.%d" % (hx(eng.pool.by_id[mid].file), 0 if arg == "~" else 1)
+                hf = eng.pool.by_id[mid].file
+                names = [hf] + [x.file for x in eng.pool.descs if x.kind == "link" and x.link_to == mid]
+                hf = next((x for x in o1["opened"] if x in names), hf)
+                uses[ch] = "h%s.%d" % (hx(hf), 0 if arg == "~" else 1)
                 if int(code) != ord(ch) or (arg not in ("~", hx("-L"))) or (arg == "~" and ru["rc"] != 0) or len(hl) != 1:
                     uses[ch] += "?"     # never matches the model: reported as a disagreement
             elif "invalid option" in ru["err"]:
@@ -701,6 +942,34 @@ def check_cases(ctx, eng, cases, cov, dist, distinct, rng):
                for k in c["statmap"]):
             dist["insecure_path"] += 1
         case = dict({k: v for k, v in c.items() if not k.startswith("_")}, origin=origin)
+        tw = eng.twins(c)
+        if tw:
+            dist["same_object_twice"] = dist.get("same_object_twice", 0) + 1
+        if "prio" not in eng.repaired and eng.uses_env(c):
+            # F17-PRIO-OVERFLOW: _cmp_f returns y->priority - x->priority; for two modules whose priorities are more than
+            # INT_MAX apart the subtraction overflows and the list is no longer in priority order
+            ps = [eng.pool.by_file[f].effective_prio(eng.default_prio) for f in c["files"]
+                  if f in eng.pool.by_file and eng.pool.by_file[f].kind in ("mod", "link")]
+            if ps and max(ps) - min(ps) > 2147483647:
+                dist["priority_overflow_pairs"] = dist.get("priority_overflow_pairs", 0) + 1
+                m1, m2 = parse_model(mlines[i]), parse_model(mlines2[i])
+                bad = slines[i] != "ok" or slines2[i] != "ok" or \
+                    any(o[k] != m[k] for o, m in ((o1, m1), (o2, m2)) for k in ("fatal", "listed", "calls", "opened"))
+                if bad:
+                    ctx.offender("priority-overflow", "modules with priorities %d and %d: the list is %s" % (
+                        max(ps), min(ps), o1["listed"]), {"case": case, "order1": c["files"], "order2": order2,
+                                                         "observed1": o1, "observed2": o2})
+                continue
+        if tw and "sameobj" not in eng.repaired:
+            # F17-SAMEOBJ: _mod_destroy of the name that loses clears type and name of the descriptor BOTH names share
+            m1, m2 = parse_model(mlines[i]), parse_model(mlines2[i])
+            bad = o1["rc"] not in (0, 1) or o2["rc"] not in (0, 1) or slines[i] != "ok" or slines2[i] != "ok" or \
+                any(o[k] != m[k] for o, m in ((o1, m1), (o2, m2)) for k in ("fatal", "listed", "calls", "opened"))
+            if bad:
+                ctx.offender("same-object-twice", "a module directory with one object under two names (%s): pdsh ends with "
+                             "status %s / %s, lists %s" % (", ".join(tw), o1["rc"], o2["rc"], o1["listed"]),
+                             {"case": case, "order1": c["files"], "order2": order2, "observed1": o1, "observed2": o2})
+            continue
         if len(cov["samples"]) < 4 and key is not None and origin == "random" and len(c["files"]) <= 5:
             cov["samples"].append({"case": case, "observed": o1})
         if o1["rc"] not in (0, 1) and all(eng.run(c)["rc"] in (0, 1) for _ in range(5)):
@@ -738,6 +1007,19 @@ def check_cases(ctx, eng, cases, cov, dist, distinct, rng):
         # determinism: the observation must not depend on the enumeration order (dlopen order aside)
         a = (o1["fatal"], o1["listed"], o1["calls"], sorted(o1["opened"]))
         b = (o2["fatal"], o2["listed"], o2["calls"], sorted(o2["opened"]))
+        if tw:
+            # one object under two names: WHICH of its names carries the module is not an observable of pdsh (-L shows
+            # type/name, not files); compare by object
+            ident = {}
+            for f in tw:
+                try:
+                    ident.setdefault(os.stat(eng.given(eng.pool.dir, f))[1:3], []).append(f)
+                except OSError:
+                    pass
+            canon = {f: min(g) for g in ident.values() for f in g}
+            cn = lambda o: (o["fatal"], [(canon.get(f, f), x) for f, x in o["listed"]], [canon.get(f, f) for f in o["calls"]],
+                            sorted(o["opened"]))
+            a, b = cn(o1), cn(o2)
         if a != b:
             dist["order_dependent"] += 1
             sig = order_dep_signature(eng, c)
